@@ -317,6 +317,25 @@ pub fn run(_args: &[String]) {
                                 // key order independence of the whole event
                                 let o2 = observe(target, &reversed_text(&ev), &ev);
                                 let order_ev = o.ok == o2.ok && o.known == o2.known && o.redacted == o2.redacted && o.type_out == o2.type_out;
+                                // spelling independence: the same event with the value of `type` written with JSON escapes
+                                // (first character as \uXXXX, every '/' as \/) is the same JSON value and must give the same answer
+                                let spell_ok = match &ev {
+                                    Value::Object(m) => {
+                                        let t3 = format!("{{{}}}", m.iter().map(|(k, v)| {
+                                            let val = match (k.as_str(), v.as_str()) {
+                                                ("type", Some(t)) if !t.is_empty() && t.is_ascii() => {
+                                                    let rest = serde_json::to_string(&t[1..]).unwrap().replace('/', "\\/");
+                                                    format!("\"\\u{:04x}{}", t.as_bytes()[0] as u32, &rest[1..])
+                                                }
+                                                _ => v.to_string(),
+                                            };
+                                            format!("{}:{}", serde_json::to_string(k).unwrap(), val)
+                                        }).collect::<Vec<_>>().join(","));
+                                        let o3 = observe(target, &t3, &ev);
+                                        o.ok == o3.ok && o.known == o3.known && o.redacted == o3.redacted && o.type_out == o3.type_out && o.acc_ok == o3.acc_ok
+                                    }
+                                    _ => true,
+                                };
                                 // content laws on original (unredacted) events
                                 // typed content exists for original events of known types only (custom contents are not retained)
                                 let red_fix = if *red && o.known { redacted_fixpoint(ty, &cont) } else { None };
@@ -359,13 +378,13 @@ pub fn run(_args: &[String]) {
                                 let _ = &o.content;
                                 json!({"i": i, "sample": s["sample"], "kind": kind, "type": ty, "alias": s.get("alias").and_then(|a| a.as_bool()).unwrap_or(false), "wildcard": wildcard, "format": format, "variant": vname, "redacted_in": red, "rv": rv,
                                        "extras": extras, "target": target, "ok": o.ok, "known": o.known, "redacted_out": o.redacted, "type_out": o.type_out,
-                                       "acc_ok": o.acc_ok, "hascontent": hascontent, "fix_ok": fix, "nodup": nodup, "subsumes": sub, "order_indep": order && order_ev,
+                                       "acc_ok": o.acc_ok, "hascontent": hascontent, "fix_ok": fix, "nodup": nodup, "subsumes": sub, "order_indep": order && order_ev, "spelling_indep": spell_ok,
                                        "extras_ok": o.ok, "raw_identical": raw_identical, "raw_field_ok": raw_field_ok, "panic": false,
                                        "err": o.err, "content_text": ctext, "tag": s.get("tag").cloned().unwrap_or(json!("")), "event": text})
                             });
                             out.put(&rec.unwrap_or_else(|p| json!({"i": i, "kind": kind, "type": ty, "alias": false, "wildcard": wildcard, "format": format, "variant": vname,
                                 "redacted_in": red, "rv": rv, "extras": extras, "target": target, "ok": false, "known": false, "redacted_out": false, "type_out": "",
-                                "acc_ok": false, "hascontent": false, "fix_ok": false, "nodup": false, "subsumes": false, "order_indep": false, "extras_ok": false,
+                                "acc_ok": false, "hascontent": false, "fix_ok": false, "nodup": false, "subsumes": false, "order_indep": false, "spelling_indep": false, "extras_ok": false,
                                 "raw_identical": false, "raw_field_ok": false, "panic": true, "err": p, "content_text": "", "tag": "", "event": text})));
                         }
                     }
